@@ -107,7 +107,7 @@ func zzC15(base int32, steps int) {
 	go w.w.handleChainNotifications()
 	w.check("c15-initial")
 	for s := 0; s < steps; s++ {
-		switch verifrt.Choice(6, "evolution") {
+		switch verifrt.Choice(7, "evolution") {
 		case 0:
 			w.connectNew(false)
 		case 1:
@@ -143,6 +143,22 @@ func zzC15(base int32, steps int) {
 			verifrt.Note("stale disconnect")
 			w.send(chain.BlockDisconnected(m))
 			verifrt.Reach("stale-disconnect")
+		case 6: // a reorg of depth 2 that starts while a rescan is running:
+			// the wallet ignores chain notifications until the rescan has
+			// finished (modelled by the chain-synced flag, which is what the
+			// RescanFinished handler sets), so it misses the first
+			// disconnect and then receives one for a block BELOW its tip
+			if len(w.chain.blocks) < 3 {
+				verifrt.Assume(false)
+			}
+			w.w.SetChainSynced(false)
+			w.disconnectTip()
+			w.w.SetChainSynced(true)
+			w.disconnectTip()
+			w.check("c15-mid-reorg")
+			w.connectNew(false)
+			w.connectNew(false)
+			verifrt.Reach("reorg-started-during-rescan")
 		}
 		w.check("c15")
 	}
